@@ -710,6 +710,10 @@ func (g *Gen) backEdge(l *Loop, from *ssa.BasicBlock) {
 		g.obligeAt("inv-preserved", fmt.Sprintf("loop%d.auto-range-%d", l.Ordinal, i), pos, cond, t)
 	}
 	for _, c := range l.Spec.Invs {
+		if c.AssumedPreserved {
+			g.Warnings = append(g.Warnings, fmt.Sprintf("loop %d invariant [%s] is ASSUMED to be preserved by the loop body (checked on entry only)", l.Ordinal, labelOr(c.Label, c.Src)))
+			continue
+		}
 		s, err := env.EvalBool(c.Expr)
 		if err != nil {
 			specFail("%s: loop %d invariant %s: %v", c.Pos, l.Ordinal, c.Src, err)
